@@ -305,7 +305,7 @@ def run_programs(ctx, tree, cov, switches):
         if len(samples) < 3:
             samples.append(dict(kind="program", name=p["name"], observed={k: dict(exit=status_of(res[k][0]),
                            stdout=res[k][1].decode(errors="replace")[:200]) for k in RUNNERS}))
-    cov["programs"] = dict(programs=len(items) - skipped, skipped=skipped, runner_observations=compared, violations=nviol,
+    cov["runner_programs"] = dict(programs=len(items) - skipped, skipped=skipped, runner_observations=compared, violations=nviol,
                            known_by_switch=known, declared=len(progs),
                            model_states=r0.distinct + r1.distinct, model_transitions=r0.generated + r1.generated)
     cov.setdefault("samples", []).extend(samples)
@@ -339,8 +339,30 @@ def run_format_real(ctx, probe, mc, consts, nvms, cov):
                                            violated=bad, built=res.get("built"), loaded=res.get("loaded")), indent=1))
                     ctx.violation("format: %s (%s)" % (bad[0], prog["name"]), path)
             f.write(json.dumps(dict(bytes=list(bytes.fromhex(res["file_bytes"])))) + "\n")
+    # the code generator's in-memory module against its own reload (the probe runs nano_virt's pipeline in process)
+    def compile_one(item):
+        prog, _ = item
+        q = sh([probe, "compile", prog["src"]], cwd=ctx.dir("cwd"), env=ctx.env(), timeout=300, check=False)
+        line = next((l for l in q.stdout.splitlines() if l.startswith("@@R ")), None)
+        if q.returncode != 0 or line is None:
+            return dict(crashed=True, rc=q.returncode, err=q.stderr[-500:])
+        return json.loads(line[4:])
+    compiled = parallel_map(compile_one, nvms, jobs=workers(ctx))
+    ncomp = nmem_bad = 0
+    for (prog, _), res, fres in zip(nvms, compiled, results):
+        if res.get("crashed") or not res.get("compiled"):
+            raise InfraError("nvm_probe compile failed on %s although nano_virt compiled it: %s" % (prog["src"], res))
+        ncomp += 1
+        bad = judge_stages(res)
+        if not bad and res["bytes"] != fres["file_bytes"]:
+            bad = ["nano_virt --emit-nvm wrote other bytes than nvm_serialize of the in-memory module"]
+        if bad:
+            nmem_bad += 1
+            if nmem_bad <= 5:
+                path = ctx.save_replay("format-memory-%s.json" % prog["name"], json.dumps(dict(kind="file", source=prog["src"],
+                                       violated=bad, built=res.get("built"), loaded=res.get("loaded")), indent=1))
+                ctx.violation("format: in-memory module of the compiler vs its reload: %s (%s)" % (bad[0], prog["name"]), path)
     # real bytes parsed by the spec's Deserialize: drift information only
-    small = [i for i, res in enumerate(results) if res["size"] <= (200000 if ctx.tier == "thorough" else 20000)]
     r = tlc(ctx, "NvmFormat_MC", cfg="NvmFormat", workers=workers(ctx), timeout=1700, cwd_files=[mc, real],
             constants=fmt_constants(consts, False, "c10_real_files.ndjson"), xss="900m")
     if r.violated:
@@ -354,7 +376,7 @@ def run_format_real(ctx, probe, mc, consts, nvms, cov):
         if not (v["ok"] and res.get("file_load_ok") and all(spec_module_dump(v["m"])[k] == res["built"][k] for k in FIELDS)
                 and v["reserialized_equal"]):
             drift += 1
-    cov["format_real"] = dict(files=len(files), failed=nbad, parsed_by_spec=len(verdict), drift=drift,
+    cov["format_real"] = dict(files=len(files), failed=nbad, compiled_in_process=ncomp, in_memory_vs_reload_failed=nmem_bad, parsed_by_spec=len(verdict), drift=drift,
                               bytes=sum(res["size"] for res in results), states=r.distinct, transitions=r.generated)
     return len(files)
 
